@@ -6,6 +6,7 @@ import VtProofs.VersatilesWrite
 import VtProofs.MBTiles
 import VtProofs.TarDir
 import VtProofs.PMTilesWrite
+import VtProofs.Capstone
 /-!
 # C01 — container round trip is lossless for every tile set and every format
 
@@ -176,6 +177,65 @@ example : (match Versatiles.write toyEnc demoSource with
       | _ => []
     | _ => []) = [.ok (some [1, 2, 3]), .ok (some [1, 2, 3]), .ok none, .ok (some [9]), .ok none] := by
   decide
+
+/-! ## capstone: C01 ∘ C02 ∘ C03 ∘ C15 -/
+
+/-- the writers' model grid is exactly `TileBBox::iter_bbox_grid(256)` (the C15 model, incl. its overflow
+    and emptiness branches) on every valid non-empty level box -/
+theorem grid256_is_iter_bbox_grid (b : BBox) (ok : VtProofs.VersatilesGrid.BoxOk b) :
+    b.iterBBoxGrid 256 = .ok (Versatiles.grid256 b) :=
+  VtProofs.Capstone.grid256_is_iterBBoxGrid b ok
+
+open VtProofs.Capstone in
+/-- **end to end (versatiles)**: the assumptions of `versatiles_roundtrip` are discharged from the
+    other properties — `Good src` is C02's notion (for every box the bbox stream is exactly what the
+    lookups deliver, each tile once; proved for the default stream, every pipeline and the container
+    readers in `VtProps.C02`), `Covers src` is C03's statement, the grid is C15's `iter_bbox_grid`.
+    Converting such a source to a `.versatiles` file and opening it gives, for every valid coordinate,
+    the source's tile (non-empty payloads; empty ones read back as `None`). -/
+theorem convert_roundtrip_versatiles (K : Inflate) (enc : Bytes → Bytes) (s : Src Bytes)
+    (hg : Good s) (hc : Covers s) (hs : SmallPayloads s)
+    (fmt : TileFormat) (comp : TComp) (b0 b1 b2 b3 : Int) (metaB : Bytes)
+    (hb : VtProofs.VersatilesWrite.i32ok b0 ∧ VtProofs.VersatilesWrite.i32ok b1 ∧
+      VtProofs.VersatilesWrite.i32ok b2 ∧ VtProofs.VersatilesWrite.i32ok b3)
+    (hK : ∀ b, K.brotli (enc b) = some b) (hnil : K.brotli [] = none)
+    (hmeta : metaB.length > 0 → ∃ raw, K.run comp metaB = .ok raw)
+    (file : Bytes) (defs : List Versatiles.BlockDef)
+    (hw : Versatiles.write enc (vsource s fmt comp b0 b1 b2 b3 metaB) = .ok (file, defs))
+    (hsize : file.length < U64) (hidx32 : ∀ d ∈ defs, d.index.len < 2 ^ 32) :
+    ∃ r, Versatiles.openReader K file = .ok r ∧ r.header.fmt = fmt ∧ r.header.comp = comp ∧
+      ∀ (c : Coord) (o : Option Bytes), Coord.Valid c → s.lookup c = .ok o →
+        Versatiles.getTile r c.1 c.2.1 c.2.2 = .ok (VtProofs.VersatilesWrite.nonEmpty o) :=
+  VtProofs.Capstone.convert_roundtrip_versatiles K enc s hg hc hs fmt comp b0 b1 b2 b3 metaB hb hK hnil hmeta
+    file defs hw hsize hidx32
+
+open VtProofs.Capstone in
+/-- **end to end (PMTiles)** -/
+theorem convert_roundtrip_pmtiles (K : Inflate) (enc : Bytes → Bytes) (s : Src Bytes)
+    (hg : Good s) (hc : Covers s) (hs : SmallPayloads s)
+    (fmt : TileFormat) (comp : TComp) (g : Int × Int × Int × Int × Nat × Int × Int) (metaB : Bytes)
+    (hcz : g.2.2.2.2.1 < 256)
+    (hgeo : VtProofs.VersatilesWrite.i32ok g.1 ∧ VtProofs.VersatilesWrite.i32ok g.2.1 ∧
+      VtProofs.VersatilesWrite.i32ok g.2.2.1 ∧ VtProofs.VersatilesWrite.i32ok g.2.2.2.1 ∧
+      VtProofs.VersatilesWrite.i32ok g.2.2.2.2.2.1 ∧ VtProofs.VersatilesWrite.i32ok g.2.2.2.2.2.2)
+    (hK : ∀ b, K.gzip (enc b) = some b) (hnil : K.gzip [] = none)
+    (hmeta : ∃ raw, K.run .gzip metaB = .ok raw)
+    (hcount : (((levelsOf s).flatMap PMTiles.grid256).flatMap (streamOf s)).length ≤ 10000000000)
+    (file : Bytes) (hw : PMTiles.write enc (psource s fmt comp g metaB) = .ok file) (hsize : file.length < U64) :
+    ∃ r, PMTiles.openReader K file = .ok r ∧
+      PMTiles.fmtOfType r.header.ttype = PMTiles.fmtOfType (PMTiles.typeCode fmt) ∧
+      PMTiles.compOfCode r.header.tcomp = .ok comp ∧
+      ∀ (c : Coord) (o : Option Bytes), Coord.Valid c → s.lookup c = .ok o →
+        PMTiles.getTile r c.1 c.2.1 c.2.2 = .ok (VtProofs.VersatilesWrite.nonEmpty o) :=
+  VtProofs.Capstone.convert_roundtrip_pmtiles K enc s hg hc hs fmt comp g metaB hcz hgeo hK hnil hmeta hcount file hw hsize
+
+/-- the assumptions are met by every source that serves the trait's default bbox stream from a total,
+    never failing lookup (e.g. the harness' `MemSource`, the tar / directory / PMTiles readers) -/
+theorem default_source_is_good (lookup : Coord → Outcome (Option Bytes)) (cover : Pyramid) (hc : cover.WF)
+    (h : ∀ c, Coord.Valid c → ∃ o, lookup c = .ok o) : Good (Src.ofLookup lookup cover) :=
+  ⟨hc, h, fun b hb => ⟨expected (Src.ofLookup lookup cover) b,
+    defaultStream_eq lookup cover b hb (fun c hv e => by obtain ⟨o, ho⟩ := h c hv; rw [ho] at e; cases e),
+    expected_keys_nodup _ b, List.Perm.refl _⟩⟩
 
 /-! ### the hypotheses of the round-trip theorems are satisfiable -/
 
